@@ -194,7 +194,7 @@ func c01(r *core.Report, p *core.Prog, thorough bool) {
 	if ta == nil {
 		r.Unresolved("C01.3", fnTransfer)
 	} else {
-		c01Transfer(r, p, ta)
+		c01Transfer(r, p, ta, "C01.3")
 	}
 
 	// ---------------- C01.4 updateState
@@ -202,7 +202,7 @@ func c01(r *core.Report, p *core.Prog, thorough bool) {
 	if us == nil {
 		r.Unresolved("C01.4", "updateState")
 	} else {
-		c01UpdateState(r, p, us)
+		c01UpdateState(r, p, us, "C01.4")
 	}
 
 	// ---------------- C01.5 sinks
@@ -285,7 +285,7 @@ func ifaceMethodNames(n *types.Named) []string {
 	return out
 }
 
-func c01Transfer(r *core.Report, p *core.Prog, ta *ssa.Function) {
+func c01Transfer(r *core.Report, p *core.Prog, ta *ssa.Function, rule string) {
 	var amount *ssa.Parameter
 	for _, prm := range ta.Params {
 		if prm.Name() == "amount" {
@@ -293,20 +293,20 @@ func c01Transfer(r *core.Report, p *core.Prog, ta *ssa.Function) {
 		}
 	}
 	if amount == nil {
-		r.Unresolved("C01.3", "transferAmount.amount")
+		r.Unresolved(rule, "transferAmount.amount")
 		return
 	}
 	minus := core.CallsIn(ta, false, core.NameIs(pkgCurr+".MinusCoin"))
 	add := core.CallsIn(ta, false, core.NameIs(pkgCurr+".AddCoin"))
-	if !r.Check(len(minus) == 1 && len(add) == 1, "C01.3", "transferAmount:one-debit-one-credit", p.Pos(ta.Pos()), fmt.Sprintf("MinusCoin=%d AddCoin=%d", len(minus), len(add))) {
+	if !r.Check(len(minus) == 1 && len(add) == 1, rule, "transferAmount:one-debit-one-credit", p.Pos(ta.Pos()), fmt.Sprintf("MinusCoin=%d AddCoin=%d", len(minus), len(add))) {
 		return
 	}
 	m, a := minus[0].Instr.(*ssa.Call), add[0].Instr.(*ssa.Call)
-	r.Check(m.Call.Args[1] == amount && a.Call.Args[1] == amount, "C01.3", "transferAmount:same-amount", p.Pos(m.Pos()),
+	r.Check(m.Call.Args[1] == amount && a.Call.Args[1] == amount, rule, "transferAmount:same-amount", p.Pos(m.Pos()),
 		"the debit and the credit must both use the parameter `amount` itself")
 	mObj, mPath := core.BaseObject(m.Call.Args[0])
 	aObj, aPath := core.BaseObject(a.Call.Args[0])
-	r.Check(mPath == ".Balance" && aPath == ".Balance" && mObj != aObj, "C01.3", "transferAmount:operands", p.Pos(m.Pos()),
+	r.Check(mPath == ".Balance" && aPath == ".Balance" && mObj != aObj, rule, "transferAmount:operands", p.Pos(m.Pos()),
 		fmt.Sprintf("debit reads %s%s, credit reads %s%s (must be the Balance of two distinct loaded states)", mObj.Name(), mPath, aObj.Name(), aPath))
 	// the two Balance stores take exactly these results
 	bal := p.Field(pkgState, "State", "Balance")
@@ -318,17 +318,17 @@ func c01Transfer(r *core.Report, p *core.Prog, ta *ssa.Function) {
 			okStores = false
 		}
 	}
-	r.Check(okStores, "C01.3", "transferAmount:stores", p.Pos(ta.Pos()), fmt.Sprintf("%d Balance stores; each must store the checked result of MinusCoin/AddCoin", len(stores)))
+	r.Check(okStores, rule, "transferAmount:stores", p.Pos(ta.Pos()), fmt.Sprintf("%d Balance stores; each must store the checked result of MinusCoin/AddCoin", len(stores)))
 	// errors of both calls are returned: on the err!=nil edge there is a failure return
 	for _, c := range []*ssa.Call{m, a} {
-		r.Check(core.ErrLeadsToFailure(c), "C01.3", "transferAmount:err-returned:"+core.MethodName(c.Common()), p.Pos(c.Pos()), "arithmetic error must lead to a failure exit")
+		r.Check(core.ErrLeadsToFailure(c), rule, "transferAmount:err-returned:"+core.MethodName(c.Common()), p.Pos(c.Pos()), "arithmetic error must lead to a failure exit")
 	}
 	// both SetClientState on every success path
 	scs := core.CallsIn(ta, false, func(c *ssa.CallCommon) bool { return isSCtxCall(c, "SetClientState") })
-	r.Check(len(scs) == 2, "C01.3", "transferAmount:two-persists", p.Pos(ta.Pos()), fmt.Sprintf("%d SetClientState calls", len(scs)))
+	r.Check(len(scs) == 2, rule, "transferAmount:two-persists", p.Pos(ta.Pos()), fmt.Sprintf("%d SetClientState calls", len(scs)))
 	for i, cs := range scs {
 		call := cs.Instr.(*ssa.Call)
-		r.Check(core.ErrLeadsToFailure(call), "C01.3", fmt.Sprintf("transferAmount:persist-err:%d", i), p.Pos(cs.Pos()), "persist error must lead to a failure exit")
+		r.Check(core.ErrLeadsToFailure(call), rule, fmt.Sprintf("transferAmount:persist-err:%d", i), p.Pos(cs.Pos()), "persist error must lead to a failure exit")
 	}
 	// success exits: amount==0 early return (no effect) or after both persists
 	for _, ret := range core.SuccessExits(ta) {
@@ -339,7 +339,7 @@ func c01Transfer(r *core.Report, p *core.Prog, ta *ssa.Function) {
 				EdgeOK: core.FeasibleEdge,
 				Target: func(in ssa.Instruction) bool { return in == ssa.Instruction(ret) }}.Find()
 			if !found {
-				r.Pass("C01.3", fmt.Sprintf("transferAmount:must-persist:%d:ret@b%d", i, ret.Block().Index), p.Pos(ret.Pos()), "every path to this success exit persists side "+fmt.Sprint(i))
+				r.Pass(rule, fmt.Sprintf("transferAmount:must-persist:%d:ret@b%d", i, ret.Block().Index), p.Pos(ret.Pos()), "every path to this success exit persists side "+fmt.Sprint(i))
 				continue
 			}
 			// allowed only if the path performs no Balance store (amount==0 early exit)
@@ -357,7 +357,7 @@ func c01Transfer(r *core.Report, p *core.Prog, ta *ssa.Function) {
 					zeroExit = true
 				}
 			}
-			r.Check(!storeOnPath && zeroExit, "C01.3", fmt.Sprintf("transferAmount:must-persist:%d:ret@b%d", i, ret.Block().Index), p.Pos(ret.Pos()),
+			r.Check(!storeOnPath && zeroExit, rule, fmt.Sprintf("transferAmount:must-persist:%d:ret@b%d", i, ret.Block().Index), p.Pos(ret.Pos()),
 				"success exit reachable without persisting: "+p.PathString(path))
 		}
 	}
@@ -383,8 +383,8 @@ func c01Transfer(r *core.Report, p *core.Prog, ta *ssa.Function) {
 			haveSuff = true
 		}
 	}
-	r.Check(haveNeq, "C01.3", "transferAmount:from!=to", p.Pos(m.Pos()), "self-transfer must be rejected before any balance is touched (a self transfer would credit a stale copy)")
-	r.Check(haveSuff, "C01.3", "transferAmount:sufficient", p.Pos(m.Pos()), "debit must be dominated by the fall-through of `balance < amount → reject` on the debited state")
+	r.Check(haveNeq, rule, "transferAmount:from!=to", p.Pos(m.Pos()), "self-transfer must be rejected before any balance is touched (a self transfer would credit a stale copy)")
+	r.Check(haveSuff, rule, "transferAmount:sufficient", p.Pos(m.Pos()), "debit must be dominated by the fall-through of `balance < amount → reject` on the debited state")
 	// debit side is loaded for fromClient, credit for toClient, persisted under the same ids
 	loadedFor := map[ssa.Value]string{}
 	for _, g := range core.CallsIn(ta, false, func(c *ssa.CallCommon) bool { return isSCtxCall(c, "GetClientState") }) {
@@ -395,30 +395,30 @@ func c01Transfer(r *core.Report, p *core.Prog, ta *ssa.Function) {
 			}
 		}
 	}
-	r.Check(loadedFor[mObj] == "fromClient" && loadedFor[aObj] == "toClient", "C01.3", "transferAmount:sides", p.Pos(m.Pos()),
+	r.Check(loadedFor[mObj] == "fromClient" && loadedFor[aObj] == "toClient", rule, "transferAmount:sides", p.Pos(m.Pos()),
 		fmt.Sprintf("debited state loaded for %q, credited state loaded for %q", loadedFor[mObj], loadedFor[aObj]))
 	for _, cs := range scs {
 		a := core.CallArgs(cs.Common())
 		id := core.AccessPath(a[0])
 		obj, _ := core.BaseObject(a[1])
-		r.Check(loadedFor[obj] == id && id != "", "C01.3", "transferAmount:persist-key:"+id, p.Pos(cs.Pos()), fmt.Sprintf("object loaded for %q is saved under %q", loadedFor[obj], id))
+		r.Check(loadedFor[obj] == id && id != "", rule, "transferAmount:persist-key:"+id, p.Pos(cs.Pos()), fmt.Sprintf("object loaded for %q is saved under %q", loadedFor[obj], id))
 	}
 }
 
-func c01UpdateState(r *core.Report, p *core.Prog, us *ssa.Function) {
+func c01UpdateState(r *core.Report, p *core.Prog, us *ssa.Function, rule string) {
 	merges := core.CallsIn(us, false, core.MethodIs("MergeMPTChanges"))
-	if !r.Check(len(merges) == 1, "C01.4", "updateState:single-commit", p.Pos(us.Pos()), fmt.Sprintf("%d MergeMPTChanges calls", len(merges))) {
+	if !r.Check(len(merges) == 1, rule, "updateState:single-commit", p.Pos(us.Pos()), fmt.Sprintf("%d MergeMPTChanges calls", len(merges))) {
 		return
 	}
 	merge := merges[0].Instr.(*ssa.Call)
-	r.Check(core.ErrLeadsToFailure(merge), "C01.4", "updateState:commit-err", p.Pos(merge.Pos()), "commit error must fail the transaction")
+	r.Check(core.ErrLeadsToFailure(merge), rule, "updateState:commit-err", p.Pos(merge.Pos()), "commit error must fail the transaction")
 	// receiver is the block state parameter, argument the txn trie variable
-	r.Check(core.AccessPath(merge.Call.Value) == "bState", "C01.4", "updateState:commit-target", p.Pos(merge.Pos()), "commit target is "+core.AccessPath(merge.Call.Value))
+	r.Check(core.AccessPath(merge.Call.Value) == "bState", rule, "updateState:commit-target", p.Pos(merge.Pos()), "commit target is "+core.AccessPath(merge.Call.Value))
 	tws := core.CallsIn(us, false, core.NameIs("(*"+pkgChain+".Chain).transferAmountWithAssert"))
-	r.Check(len(tws) == 2, "C01.4", "updateState:transfer-loops", p.Pos(us.Pos()), fmt.Sprintf("%d transferAmountWithAssert sites (queued transfers, signed transfers)", len(tws)))
+	r.Check(len(tws) == 2, rule, "updateState:transfer-loops", p.Pos(us.Pos()), fmt.Sprintf("%d transferAmountWithAssert sites (queued transfers, signed transfers)", len(tws)))
 	for i, cs := range tws {
 		call := cs.Instr.(*ssa.Call)
-		r.Check(core.ErrLeadsToFailure(call), "C01.4", fmt.Sprintf("updateState:transfer-err:%d", i), p.Pos(cs.Pos()), "a failed transfer must fail the whole transaction (no commit)")
+		r.Check(core.ErrLeadsToFailure(call), rule, fmt.Sprintf("updateState:transfer-err:%d", i), p.Pos(cs.Pos()), "a failed transfer must fail the whole transaction (no commit)")
 		// arguments come from the queued transfer object
 		a := core.CallArgs(cs.Common())
 		desc := []string{}
@@ -426,42 +426,42 @@ func c01UpdateState(r *core.Report, p *core.Prog, us *ssa.Function) {
 			desc = append(desc, core.AccessPath(v))
 		}
 		okArgs := len(desc) == 3 && strings.HasSuffix(desc[0], ".ClientID") && strings.HasSuffix(desc[1], ".ToClientID") && strings.HasSuffix(desc[2], ".Amount")
-		r.Check(okArgs, "C01.4", fmt.Sprintf("updateState:transfer-args:%d", i), p.Pos(cs.Pos()), "applies "+strings.Join(desc, ", "))
+		r.Check(okArgs, rule, fmt.Sprintf("updateState:transfer-args:%d", i), p.Pos(cs.Pos()), "applies "+strings.Join(desc, ", "))
 		// the merge must not be reachable before the loop: loop header dominates merge
-		r.Check(cs.Instr.Block().Dominates(merge.Block()) || loopHeaderOf(cs.Instr.Block()).Dominates(merge.Block()), "C01.4", fmt.Sprintf("updateState:transfer-before-commit:%d", i), p.Pos(cs.Pos()), "transfer loop must precede the commit on every path")
+		r.Check(cs.Instr.Block().Dominates(merge.Block()) || loopHeaderOf(cs.Instr.Block()).Dominates(merge.Block()), rule, fmt.Sprintf("updateState:transfer-before-commit:%d", i), p.Pos(cs.Pos()), "transfer loop must precede the commit on every path")
 	}
 	// the loops iterate sctx.GetTransfers() / GetSignedTransfers()
 	for _, name := range []string{"GetTransfers", "GetSignedTransfers"} {
 		n := len(core.CallsIn(us, false, core.MethodIs(name)))
-		r.Check(n == 1, "C01.4", "updateState:iterates:"+name, p.Pos(us.Pos()), fmt.Sprintf("%d calls", n))
+		r.Check(n == 1, rule, "updateState:iterates:"+name, p.Pos(us.Pos()), fmt.Sprintf("%d calls", n))
 	}
 	// transferAmountWithAssert passes through transferAmount with its own parameters
 	tw := p.Func("(*" + pkgChain + ".Chain).transferAmountWithAssert")
 	if tw == nil {
-		r.Unresolved("C01.4", "transferAmountWithAssert")
+		r.Unresolved(rule, "transferAmountWithAssert")
 		return
 	}
 	inner := core.CallsIn(tw, false, core.NameIs(fnTransfer))
-	if r.Check(len(inner) == 1, "C01.4", "transferAmountWithAssert:calls-primitive", p.Pos(tw.Pos()), fmt.Sprintf("%d calls", len(inner))) {
+	if r.Check(len(inner) == 1, rule, "transferAmountWithAssert:calls-primitive", p.Pos(tw.Pos()), fmt.Sprintf("%d calls", len(inner))) {
 		a := core.CallArgs(inner[0].Common())
 		d := []string{}
 		for _, v := range a {
 			d = append(d, core.AccessPath(v))
 		}
-		r.Check(strings.Join(d, ",") == "sctx,fromClient,toClient,amount", "C01.4", "transferAmountWithAssert:args", p.Pos(inner[0].Pos()), strings.Join(d, ","))
-		r.Check(core.ErrLeadsToFailure(inner[0].Instr.(*ssa.Call)), "C01.4", "transferAmountWithAssert:err", p.Pos(inner[0].Pos()), "primitive's error must be returned")
+		r.Check(strings.Join(d, ",") == "sctx,fromClient,toClient,amount", rule, "transferAmountWithAssert:args", p.Pos(inner[0].Pos()), strings.Join(d, ","))
+		r.Check(core.ErrLeadsToFailure(inner[0].Instr.(*ssa.Call)), rule, "transferAmountWithAssert:err", p.Pos(inner[0].Pos()), "primitive's error must be returned")
 	}
 	// who calls the primitive: only the assert wrapper
 	n := 0
 	for _, fn := range p.ModFuncs() {
 		for _, cs := range core.CallsIn(fn, false, core.NameIs(fnTransfer)) {
 			n++
-			r.Check(core.EnclosingNamed(fn) == tw, "C01.4", "transferAmount-caller:"+core.EnclosingNamed(fn).String(), p.Pos(cs.Pos()), "primitive called outside the asserted wrapper")
+			r.Check(core.EnclosingNamed(fn) == tw, rule, "transferAmount-caller:"+core.EnclosingNamed(fn).String(), p.Pos(cs.Pos()), "primitive called outside the asserted wrapper")
 		}
 	}
 	for _, fn := range p.ModFuncs() {
 		for _, cs := range core.CallsIn(fn, false, core.NameIs(tw.String())) {
-			r.Check(core.EnclosingNamed(fn) == us, "C01.4", "transferAmountWithAssert-caller:"+core.EnclosingNamed(fn).String(), p.Pos(cs.Pos()), "wrapper called outside updateState")
+			r.Check(core.EnclosingNamed(fn) == us, rule, "transferAmountWithAssert-caller:"+core.EnclosingNamed(fn).String(), p.Pos(cs.Pos()), "wrapper called outside updateState")
 		}
 	}
 }
@@ -480,6 +480,7 @@ func loopHeaderOf(b *ssa.BasicBlock) *ssa.BasicBlock {
 }
 
 func c01Genesis(r *core.Report, p *core.Prog, gb *ssa.Function) {
+	const rule7 = "C01.7"
 	// comparison scTotalTokens != config.MaxTokenSupply guarding a panic
 	found := false
 	for _, b := range gb.Blocks {
@@ -523,6 +524,70 @@ func c01Genesis(r *core.Report, p *core.Prog, gb *ssa.Function) {
 	r.Check(nAdd >= 2 && nMinus >= 1, "C01.7", "mustInitGBState:checked-sums", p.Pos(gb.Pos()), fmt.Sprintf("AddCoin=%d MinusCoin=%d", nAdd, nMinus))
 	for i, cs := range core.CallsIn(gb, false, core.NameIs(pkgCurr+".MinusCoin")) {
 		a := cs.Common().Args
+		// the amount taken off a wallet must be what was handed to *that wallet's* clients:
+		// the accumulator may be carried round the inner (client) loop but not round the
+		// wallet loop that contains this subtraction.
+		carried := ""
+		outer := map[*ssa.BasicBlock]bool{}
+		for _, l := range core.LoopsContaining(gb, cs.Instr.Block()) {
+			outer[l.Header] = true
+		}
+		seenV := map[ssa.Value]bool{}
+		var walk func(v ssa.Value, d int)
+		walk = func(v ssa.Value, d int) {
+			if v == nil || seenV[v] || d > 12 {
+				return
+			}
+			seenV[v] = true
+			switch x := v.(type) {
+			case *ssa.Phi:
+				if outer[x.Block()] {
+					carried = fmt.Sprintf("value is carried across iterations of the wallet loop (phi in loop header b%d)", x.Block().Index)
+				}
+				for _, e := range x.Edges {
+					walk(e, d+1)
+				}
+			case *ssa.Extract:
+				if c, ok := x.Tuple.(*ssa.Call); ok && core.CalleeName(c.Common()) == pkgCurr+".AddCoin" {
+					walk(c.Call.Args[0], d+1)
+				}
+			case *ssa.UnOp:
+				if al, ok := x.X.(*ssa.Alloc); ok {
+					// a variable spilled to memory: every store must lie inside the wallet loop body
+					for _, sv := range core.StoresTo(al) {
+						walk(sv, d+1)
+					}
+					for _, ref := range *al.Referrers() {
+						if st, ok := ref.(*ssa.Store); ok && st.Addr == ssa.Value(al) {
+							in := false
+							for _, l := range core.LoopsContaining(gb, cs.Instr.Block()) {
+								if l.Body[st.Block()] {
+									in = true
+								}
+							}
+							_ = in
+						}
+					}
+					if len(core.LoopsContaining(gb, al.Block())) == 0 && len(outer) > 0 {
+						carried = "accumulator variable is declared outside the wallet loop and never reset inside it"
+						for _, ref := range *al.Referrers() {
+							if st, ok := ref.(*ssa.Store); ok && st.Addr == ssa.Value(al) {
+								if k, isK := core.ConstInt(st.Val); isK && k == 0 {
+									for _, l := range core.LoopsContaining(gb, cs.Instr.Block()) {
+										if l.Body[st.Block()] {
+											carried = ""
+										}
+									}
+								}
+							}
+						}
+					}
+				}
+			}
+		}
+		walk(a[1], 0)
+		r.Check(carried == "" && len(outer) >= 1, rule7, fmt.Sprintf("mustInitGBState:per-wallet-accumulator:%d", i), p.Pos(cs.Pos()),
+			"the tokens subtracted from a wallet must be accumulated for that wallet only; "+carried)
 		r.Check(strings.HasSuffix(core.AccessPath(a[0]), ".Tokens"), "C01.7", fmt.Sprintf("mustInitGBState:minus:%d", i), p.Pos(cs.Pos()),
 			"client allocations are subtracted from "+core.AccessPath(a[0]))
 	}
